@@ -117,8 +117,10 @@ def symStd : Std → List (List BSet)
   | .longYear => [[[(49, 50)], dS, dS, dS]]
   | .year | .zeroDay | .hour | .zeroHour12 | .zeroMinute | .zeroSecond => [[dS, dS]]
   | .zeroMonth => [[[(48, 49)], dS]]
-  | .numMonth | .day | .hour12 | .minute | .second => [[dS], [dS, dS]]
-  | .underDay => [[bS 32, dS], [dS, dS]]
+  | .numMonth | .hour12 => [[dS], [[(49, 49)], [(48, 50)]]]      -- one digit, or 10 11 12
+  | .day => [[dS], [[(49, 51)], dS]]                            -- one digit, or 10..31
+  | .minute | .second => [[dS], [dS, dS]]
+  | .underDay => [[bS 32, dS], [[(49, 51)], dS]]
   | .month | .weekDay => [[uS, lS, lS]]
   | .longMonth => (List.range 7).map (fun k => uS :: List.replicate (k + 2) lS)
   | .longWeekDay => (List.range 4).map (fun k => uS :: List.replicate (k + 5) lS)
